@@ -62,6 +62,11 @@ def case_st(draw):
                     vals[j] = "NaN"
         elif mode == "all":
             vals = ["NaN"] * ncell
+        if op in ("dropna", "fillna", "setna") and draw(st.integers(0, 3)) == 0:
+            # infinite values are data, not missing values
+            for j in draw(st.lists(st.integers(0, ncell - 1), min_size=1, max_size=2, unique=True)):
+                if vals[j] != "NaN":
+                    vals[j] = draw(st.sampled_from(["inf", "-inf"]))
     else:
         vals = draw(st.lists(st.integers(-3, 3), min_size=ncell, max_size=ncell))
     spec["vals"] = vals
@@ -269,6 +274,7 @@ def run_case(case):
         exp = np.asarray(vals, dtype=object).copy()
         form = p["form"]
         if "masks" in p:
+            p = dict(p, value=[float(v) if isinstance(v, str) and v in ("inf", "-inf") else v for v in p["value"]])
             masks = [np.array(mk, dtype=bool).reshape(vals.shape) for mk in p["masks"]]
             mask = np.zeros(vals.shape, dtype=bool)
             for idx in itertools.product(*[range(s) for s in vals.shape]):
@@ -281,6 +287,8 @@ def run_case(case):
             arg = mask if form == "mask" else da.DimArray(mask, axes=[x.copy() for x in a.axes])
             cl.add("setna:mask")
         else:
+            dec = lambda v: float(v) if isinstance(v, str) and v in ("inf", "-inf") else v      # (JSON spelling of the infinities)
+            p = dict(p, value=[dec(v) for v in p["value"]] if isinstance(p["value"], list) else dec(p["value"]))
             vs = p["value"] if isinstance(p["value"], list) else [p["value"]]
             mask = np.zeros(vals.shape, dtype=bool)
             for idx in itertools.product(*[range(s) for s in vals.shape]):
